@@ -183,3 +183,36 @@ Theorem C02_no_mutable_package_state :
   StateInventory.rg_mutated g = false /\ StateInventory.rg_escapes g = false.
 Proof. apply StateInventory.pkg_state_ok_spec. vm_compute. reflexivity. Qed.
 Print Assumptions C02_no_mutable_package_state.
+
+(** CONCURRENCY (model/SigConc.v, proofs/SigConcProofs.v).  The theorems above are about a function; the Go
+    methods are loops  buf := make([]byte, 0); for ... { buf = append(buf, ...) }; return Sha256d(buf).  On a
+    machine where any number of such loops run interleaved, statement by statement, under ANY schedule and from any
+    initial memory: when every loop appends into an array of its own, a loop that returns returns the hash of ITS
+    transaction - hashPrevouts, hashSequence, hashOutputs are previous_out_hash / sequence_hash / outputs_hash of
+    the value-level model, whatever else the process computes.  The hypothesis (arrays pairwise distinct) is what
+    C02_no_mutable_package_state establishes about the source: no package-level buffer.  It is needed:
+    C02_shared_hash_buffer_would_interfere gives two transactions and a schedule for which one shared array
+    (buf := hashBuf[:0]) makes a loop return the OTHER transaction's hashPrevouts.  The Go harness runs the real
+    methods from 8 goroutines (own transactions / one shared transaction) on every run. *)
+From GoBT Require Import model.SigConc proofs.SigConcProofs.
+Theorem C02_concurrent_hashes_independent : forall (txs : list (nat * tx)) sched s0, NoDup (map fst txs) ->
+  forall k a t,  nth_error txs k = Some (a, t) ->
+  (forall th r, nth_error (snd (run sched (s0, start (map (fun at_ => (fst at_, prevout_chunks (snd at_))) txs)))) k = Some th ->
+                th_res th = Some r -> r = previous_out_hash t) /\
+  (forall th r, nth_error (snd (run sched (s0, start (map (fun at_ => (fst at_, sequence_chunks (snd at_))) txs)))) k = Some th ->
+                th_res th = Some r -> r = sequence_hash t) /\
+  (forall th r, nth_error (snd (run sched (s0, start (map (fun at_ => (fst at_, outputs_chunks (snd at_))) txs)))) k = Some th ->
+                th_res th = Some r -> Some r = outputs_hash t (-1)%Z).
+Proof. exact conc_hashes_independent. Qed.
+Print Assumptions C02_concurrent_hashes_independent.
+Theorem C02_shared_hash_buffer_would_interfere : exists t1 t2 sched r,
+  map th_res (snd (run sched (fun _ => [], start [(0%nat, prevout_chunks t1); (0%nat, prevout_chunks t2)])))
+    = [Some r; Some (previous_out_hash t2)] /\
+  r <> previous_out_hash t1 /\ r = previous_out_hash t2.
+Proof. exact conc_shared_interferes. Qed.
+Print Assumptions C02_shared_hash_buffer_would_interfere.
+(** non-vacuity: under a round-robin schedule two loops on two arrays both finish, with their own hashes *)
+Example C02_example_concurrent_private :
+  map th_res (snd (run round_robin (fun _ => [], start [(0%nat, prevout_chunks ctx1); (1%nat, prevout_chunks ctx2)])))
+  = [Some (previous_out_hash ctx1); Some (previous_out_hash ctx2)].
+Proof. exact conc_private_example. Qed.
